@@ -559,6 +559,45 @@ func genC11(c *Ctx) {
 			}
 			c.Case("hasher-guard", "expect "+want+" #"+cv.name+name, ans)
 		}
+		// many signatures from ONE private key object: each is verified by the model as soon as it is returned (a signer
+		// that serialises into a buffer it keeps leaves stale bytes when r or s has leading zero bytes: 1 signature in
+		// 128), and the earlier ones again after the later ones were made (the bytes returned are the caller's)
+		{
+			d := c.randMod(cv.n)
+			sk := ecSk(cv, d)
+			pk := sk.PublicKey()
+			hh := hash.NewSHA3_256()
+			nSig := 260
+			if c.thorough() {
+				nSig = 2000
+			}
+			type made struct{ msg, sig []byte }
+			var first []made
+			for i := 0; i < nSig; i++ {
+				msg := []byte(fmt.Sprintf("message %d under one key", i))
+				sig, err := sk.Sign(msg, hh)
+				if err != nil {
+					panic(err)
+				}
+				accepted := func(class string, msg, sig []byte) { // what Sign returned verifies: a statement about Sign
+					c.Case(class, "expect true #"+cv.name, guard(func() string { return boolAns(pk.Verify(sig, msg, hh)) }))
+				}
+				if i < 4 {
+					first = append(first, made{msg, sig}) // kept uncopied
+					verify("one-key-many-signatures/first", pk, hh, msg, append([]byte{}, sig...))
+					accepted("one-key-many-signatures/first-accepted", msg, sig)
+				} else if sig[0] == 0 || sig[32] == 0 || sig[0] < 4 || sig[32] < 4 || i%16 == 0 {
+					verify("one-key-many-signatures", pk, hh, msg, sig) // short r or s, and a sample of the others
+					accepted("one-key-many-signatures/accepted", msg, sig)
+				} else if ok, _ := pk.Verify(sig, msg, hh); !ok {
+					accepted("one-key-many-signatures/accepted", msg, sig)
+				}
+			}
+			for _, m := range first {
+				verify("one-key-many-signatures/first-again", pk, hh, m.msg, m.sig)
+				c.Case("one-key-many-signatures/first-still-accepted", "expect true #"+cv.name, guard(func() string { return boolAns(pk.Verify(m.sig, m.msg, hh)) }))
+			}
+		}
 		// overlapping verifications on one curve, each with its own key, hasher object, long message (hashing takes a
 		// while) and signature - valid ones and ones with a flipped bit, format checks of other strings in between: a
 		// verdict is a function of (key, digest, signature), whatever else is being verified at the same time
